@@ -388,6 +388,10 @@ def _aligned_rest(ck, behaviours, execute):
         raise AnalysisError(f"{second.where}: expected a single return")
     v = rets[0].value
     w = where(second, rets[0].node)
+    # the same call on an element whose class the normaliser did not resolve (`map(methodcaller("setAlignedRest", True), rows)`):
+    # there is one method of that name in the repository
+    if v[0] == "comp" and v[2][0] == "mcall" and v[2][2] == setter.name and v[2][1][0] == "bv" and len(v[2][3]) == 1 and not v[2][4]:
+        v = (v[0], v[1], ("app", setter.qualname, v[2][1], (("alignedRest", v[2][3][0]),)), v[3])
     ok = v[0] == "comp" and v[1] == "list" and v[2][0] == "app" and v[2][1] == setter.qualname and v[2][2][0] == "bv" \
         and dict(v[2][3]).get("alignedRest") == C(True) and len(v[3]) == 1 and not v[3][0][1]
     if ok:
